@@ -75,6 +75,15 @@ def check(rep, an, tier):
                           construct=f"offset removed before {ev.text()}", entry=entry, config=res.config,
                           msg="the offset subtracted from the vertices and the targets does not depend on lb: for lb ≠ 0 the cone of an unbounded "
                               "system is anchored at the wrong point, so targets below the lower bounds (even the all-off capture) are accepted")
+                # … it is that capture ITSELF: the per-channel minimum over the vertices coincides with it only while K·A is non-negative;
+                # with a signed (opponent) adaptation matrix the minimum is taken at other corners and is not the apex of the cone
+                if m is not None and st:
+                    ext = m.flat().tag("extremum")
+                    rep.check("R-QTY", "unbounded gamut: the apex is the capture of the lower bounds itself", ext is None, where=ev.loc,
+                              construct=f"offset removed before {ev.text()}", entry=entry, config=res.config,
+                              msg=f"the offset is an extremum ({ext[0] if isinstance(ext, tuple) else ext}) over the gamut vertices: for an adaptation matrix with negative entries the "
+                                  f"per-channel minimum is not the capture of the lower bounds, the cone is anchored outside the gamut and captures "
+                                  f"of intensities strictly inside the bounds are reported out of gamut")
                 # … and it is one value PER CHANNEL (the vertex axis alone is reduced): a single scalar for all channels is the apex only
                 # when every channel has the same darkest capture
                 ms, ps = (m.flat().shape if m is not None else None), (P.flat().shape if P is not None else None)
